@@ -377,10 +377,28 @@ class SNum:
         oz = _znum(o)
         if oz is None:
             return NotImplemented
-        if not (isinstance(o, (int, float)) and o != 0):
-            raise Unsupported('true division by symbolic value')
-        return mk_num(z3.simplify(z3.ToReal(self.z) / z3.ToReal(oz)
-                                  if self.is_int else self.z / oz))
+        if isinstance(o, (int, float)) and not isinstance(o, bool):
+            if o == 0:
+                raise ZeroDivisionError('division by zero')
+        else:
+            # a symbolic divisor: the path on which it is zero raises (the
+            # interpreter turns this into the interpreted exception), on the
+            # other one the quotient is the real one (floats as reals)
+            if cur().decide(oz == 0):
+                raise ZeroDivisionError('division by zero')
+        num = z3.ToReal(self.z) if self.is_int else self.z
+        den = z3.ToReal(oz) if oz.sort() == z3.IntSort() else oz
+        return mk_num(z3.simplify(num / den))
+
+    def __rtruediv__(self, o):
+        oz = _znum(o)
+        if oz is None:
+            return NotImplemented
+        if cur().decide(self.z == 0):
+            raise ZeroDivisionError('division by zero')
+        num = z3.ToReal(oz) if oz.sort() == z3.IntSort() else oz
+        den = z3.ToReal(self.z) if self.is_int else self.z
+        return mk_num(z3.simplify(num / den))
 
     def _cmp(self, o, f):
         oz = _znum(o)
